@@ -19,6 +19,7 @@ import numpy as np
 
 import core
 import comp_common as cc
+import comp_matrix as mx
 from props import C11
 
 NOOP_KINDS = ["hidden", "transparent", "masked-out", "zero-opacity", "zero-fill", "outside"]
@@ -352,8 +353,8 @@ def viewports(rng, W, H):
     return out
 
 
-def make_tasks(ctx, docs, per_doc_noop, per_doc_wrap):
-    rng = ctx.rng
+def make_tasks(ctx, docs, per_doc_noop, per_doc_wrap, rng=None):
+    rng = rng or ctx.rng
     nprng = np.random.RandomState(rng.randrange(2 ** 32))
     tasks = []
     for doc in docs:
@@ -658,6 +659,23 @@ def run(ctx: core.Run):
     rng = ctx.rng
     corpus = json.loads((core.VERIF / "harness" / "corpus" / "C13.json").read_text())
     process(ctx, [law_from_json(j) for j in corpus], st)
+    # the deterministic feature-matrix stream (a subset that exercises every cell of comp_matrix.universe()); the positions,
+    # no-op kinds and viewports drawn for it come from a generator of its own, so this part is the same for every VERIF_SEED
+    import random
+    mdocs = mx.covering_docs(ctx.tier)
+    for d in mdocs:
+        ctx.hist("colour_mode", d["mode"])
+        for c in mx.cells(d):
+            ctx.hist("matrix", c)
+    mtasks = make_tasks(ctx, mdocs, 4 if ctx.quick else 10, 4 if ctx.quick else 10, rng=random.Random("C13-matrix"))
+    for k in range(0, len(mtasks), 4000):
+        process(ctx, mtasks[k:k + 4000], st)
+    ncell, zero = mx.coverage(ctx.histograms.get("matrix", {}))
+    ctx.extra["feature_matrix"] = {"cells": ncell, "cells_hit": ncell - len(zero), "cells_without_hits": zero,
+                                   "documents_in_the_deterministic_stream": len(mdocs), "relations_on_them": len(mtasks),
+                                   "histogram": "histograms.matrix (documents of the deterministic stream per cell)"}
+    if zero:
+        ctx.skipped.append(f"{len(zero)} cell(s) of the feature matrix were not exercised: {zero[:10]}")
     n_docs = 60 if ctx.quick else 900
     nprng = np.random.RandomState(rng.randrange(2 ** 32))
     docs = []
@@ -683,7 +701,10 @@ def run(ctx: core.Run):
         "masked-out / zero-opacity / zero-fill / outside at one position of one list, incl. inside groups and clip runs) for the no-op law "
         "(thorough: every position x every kind; quick: 5 positions x 2 kinds); (document with one contiguous segment of whole clipping runs "
         "wrapped in a full-opacity unmasked PASS_THROUGH group) for the grouping law (thorough: every segment of every list); "
-        "(document, codec in RLE / ZIP / ZIP+prediction) and save -> reopen, bit-identical; documents from the C11 generator (every 8th from "
+        "(document, codec in RLE / ZIP / ZIP+prediction) and save -> reopen, bit-identical; first the deterministic feature-matrix documents "
+        "(comp_matrix.covering_docs: a VERIF_SEED-independent subset of C11's matrix stream that exercises every cell - clip runs on every kind "
+        "of base, knockout, group attributes incl. masks, nesting, geometry; 4 (thorough 10) positions x 2 kinds and 4 (10) segments each), then "
+        "documents from the C11 generator (every 8th from "
         "its hard-mix / non-separable stream); fixtures: viewport (inside, degenerate), save -> reopen, range. evaluations = pixels related; "
         "correspondence_cases = pixels sent to the Lean model (a seeded share of the transformed inputs, every pixel of the viewport)")
     ctx.trusted_base += [
